@@ -26,3 +26,18 @@ Definition split64 (x : Z) : Z * Z := (x / 2 ^ 32, x mod 2 ^ 32).
 Definition poly64 : Z := 4823603603198064275.
 Definition step64 (r : Z * Z) (bit : bool) : Z * Z := split64 (crc_step poly64 64 (join64 r) bit).
 Definition Inv64 (r : Z * Z) : Prop := 0 <= fst r < 2 ^ 32 /\ 0 <= snd r < 2 ^ 32.
+
+(* ---- polynomials over GF(2) as bit vectors: bit i of z = coefficient of x^i;
+        addition is lxor, multiplication by x^k is shiftl k ------------------------------------ *)
+(* m is a polynomial multiple of G: a finite sum of shifted copies of G *)
+Inductive multG (G : Z) : Z -> Prop :=
+| multG_0 : multG G 0
+| multG_add : forall m k, 0 <= k -> multG G m -> multG G (Z.lxor m (Z.shiftl G k)).
+(* a = b modulo G *)
+Definition congG (G a b : Z) : Prop := multG G (Z.lxor a b).
+(* the message polynomial: first bit = highest coefficient *)
+Fixpoint msg_poly (bits : list bool) : Z :=
+  match bits with
+  | [] => 0
+  | b :: r => Z.lxor (Z.shiftl (Z.b2z b) (Z.of_nat (length r))) (msg_poly r)
+  end.
